@@ -91,6 +91,21 @@ func run(pass *analysis.Pass) (any, error) {
 			return
 		}
 
+		// A switch cannot list the same constant twice.
+		seen := map[string]struct{}{}
+		for _, pair := range pairs {
+			for _, binexpr := range pair {
+				tv, ok := pass.TypesInfo.Types[binexpr.Y]
+				if !ok || tv.Value == nil {
+					continue
+				}
+				if _, dup := seen[tv.Value.ExactString()]; dup {
+					return
+				}
+				seen[tv.Value.ExactString()] = struct{}{}
+			}
+		}
+
 		edits := make([]analysis.TextEdit, 0, len(swtch.Body.List)+1)
 		for i, stmt := range swtch.Body.List {
 			stmt := stmt.(*ast.CaseClause)
